@@ -242,6 +242,8 @@ class Engine:
         if k == 'unreachable':
             return []
         if k == 'drop':
+            if 'Guard' in t.get('place_ty', ''):
+                st.events.append(('drop', t['place_ty'], self._lvalue(st, fn, fid, t['place']), self._read_place(st, fn, fid, t['place'])))
             return [(st, fn, fid, t['target'])]
         if k == 'assert':
             cond = self._operand(st, fn, fid, t['cond'])
